@@ -42,7 +42,7 @@ func init() {
 			"write n1", "flush", "write n1", "flush", "heal", "flush", "beat n1", "flush", "beat n1", "flush")},
 		{"snapshot-before-later-term-entry", sim.Config{Voters: 3, SnapAt: 2}, with(lead, "write n0", "rt 0>1:AE#2", "rt 0>2:AE#2", "rt 0>1:AE#3", "isolate n0", "timeout n1", "rt 1>2:RV#0 a=2", "rt 1>2:RV#1", "flush",
 			"write n1", "flush", "heal", "flush", "beat n1", "flush")},
-		{"same-term-step-down-after-vote", sim.Config{Voters: 3}, append(append([]sim.Event{}, seedSplit...), p("rt 0>2:RV#2", "rt 1>2:RV#2 a=2", "timeout n2", "rt 0>2:AE#0", "heal", "flush", "beat n0", "flush")...)},
+		{"same-term-step-down-after-vote", sim.Config{Voters: 3}, append(append([]sim.Event{}, seedSplit...), p("rt 0>2:RV#2", "rt 0>2:RV#3", "rt 1>2:RV#2 a=2", "timeout n2", "rt 0>2:AE#0", "heal", "flush", "beat n0", "flush")...)},
 		{"vote-then-candidate-dies", sim.Config{Voters: 3}, p("timeout n0", "rt 0>1:RV#0 a=2", "rt 0>1:RV#1", "crash n0", "timeout n2", "rt 2>1:RV#0 a=2", "rt 2>1:RV#1", "timeout n2", "rt 2>1:RV#2 a=2", "flush", "restart n0", "beat n2", "flush")},
 		{"local-snapshot", sim.Config{Voters: 3, SnapAt: 2}, with(lead, "write n0", "flush", "write n0", "flush", "write n0", "flush", "beat n0", "flush")},
 		{"install-on-lagging-follower", sim.Config{Voters: 3, SnapAt: 2}, with(lead, "crash n2", "write n0", "flush", "write n0", "flush", "write n0", "flush", "restart n2", "beat n0", "flush", "beat n0", "flush", "beat n0", "flush")},
